@@ -211,7 +211,7 @@ def build(ctx):
             todo.append(s)
     objs = reuse + ctx.cc_objs(todo, flags=flags, san="asan", tag="ot")
     ctx.extra["types_objects_compiled"] = len(todo)
-    return ctx.cc("pd_c01t", objs, flags=flags + ["-Wl,--no-as-needed", "-lm"], san="asan")
+    return ctx.cc("pd_c01t", objs, flags=flags + ["-Wl,--no-as-needed", "-lm", "-Wl,--wrap=malloc"], san="asan")
 
 
 # ----------------------------------------------------- script vocabulary
